@@ -727,7 +727,7 @@ func run(a *hlib.Args, e *hlib.Emitter) error {
 			pre = append(pre, o)
 			t.apply(o)
 		}
-		pre = append(pre, gop{K: "race", C: "new", Key: r.Chance(2, 3), I: r.Intn(400) - 200})
+		pre = append(pre, gop{K: "race", C: "new", Key: r.Chance(2, 3), I: r.Intn(800) - 200})
 		for s := 0; s < 3; s++ {
 			if t.held[s] {
 				pre = append(pre, gop{K: "rel", R: s})
